@@ -43,23 +43,34 @@ Definition panic_ev (s : st) (e : ev) : bool :=
   | _ => false
   end.
 
+(** outcome of replaying one component's observed history on the model *)
+Inductive rres := RBad | RDone | RPanicEnd.
+
 (** model replay of one component's observed history: every observation must be
-    what the model predicts, every environment step must be legal, and a run that
-    returned normally leaves no tick event behind. *)
-Fixpoint replay (f : N) (completed : bool) (s : st) (es : list ev) : bool :=
+    what the model predicts, every environment step must be legal, a run that
+    returned normally leaves no tick event behind; a run that aborted must end,
+    for some component, exactly where the model panics. *)
+Fixpoint replay (f : N) (completed : bool) (s : st) (es : list ev) : rres :=
   match es with
-  | [] => if completed then negb (inh s) && (match pend s with [] => true | _ => false end)
-          else true
+  | [] => if completed
+          then (if negb (inh s) && (match pend s with [] => true | _ => false end) then RDone else RBad)
+          else RDone
   | e :: r =>
       match step f s (op_of e) with
-      | Ok s' e' => ev_eqb e e' && replay f completed s' r
-      | Panic => panic_ev s e && (match r with [] => true | _ => false end) && negb completed
-      | Illegal => false
+      | Ok s' e' => if ev_eqb e e' then replay f completed s' r else RBad
+      | Panic => if panic_ev s e && (match r with [] => true | _ => false end) && negb completed
+                 then RPanicEnd else RBad
+      | Illegal => RBad
       end
   end.
 
+Definition not_bad (r : rres) : bool := match r with RBad => false | _ => true end.
+Definition is_panic_end (r : rres) : bool := match r with RPanicEnd => true | _ => false end.
+
 Definition check_case (c : case) : bool :=
-  forallb (fun k => replay (cc_f k) (c_completed c) init (cc_hist k)) (c_comps c).
+  forallb (fun k => not_bad (replay (cc_f k) (c_completed c) init (cc_hist k))) (c_comps c)
+  && (c_completed c ||
+      existsb (fun k => is_panic_end (replay (cc_f k) (c_completed c) init (cc_hist k))) (c_comps c)).
 
 (** ------------------------------------------------------------------ *)
 (** The property itself on the observed history, without the model.     *)
@@ -139,3 +150,14 @@ Definition abort_excused (k : comp) : bool :=
 Definition holds_on (c : case) : bool :=
   forallb (comp_holds (c_completed c)) (c_comps c)
   && (c_completed c || existsb abort_excused (c_comps c)).
+
+(** well-formed for the link theorem: frequencies in 1 Hz..1 THz and every
+    engine time of the history has a representable next clock edge *)
+Definition ev_fits (p : N) (e : ev) : bool :=
+  match e with
+  | EAdv t | ECall _ t _ | EPop t => least_multiple_gt p t <? two64
+  | ERet _ _ => true
+  end.
+
+Definition wf_case (c : case) : bool :=
+  forallb (fun k => freq_ok (cc_f k) && forallb (ev_fits (ps_per_second / cc_f k)) (cc_hist k)) (c_comps c).
